@@ -483,6 +483,23 @@ impl ContinuityStore {
             return Ok(events);
         }
 
+        // The sidecar is missing or was refused - which also happens to a healthy sidecar when its
+        // last line is read while a writer is appending it. The log read and the rebuild run under
+        // the seq mutex the writers hold from their log append to their sidecar append: a frame
+        // appended meanwhile would be in neither the log read nor the rewritten sidecar, and the
+        // sidecar would be left a well-formed prefix of the thread that misses it.
+        let _writers_excluded = self.next_seq.lock().expect("continuity seq mutex");
+        self.replay_events_locked(continuity_id)
+    }
+
+    /// `replay_events` for a caller that holds the seq mutex.
+    fn replay_events_locked(&self, continuity_id: &str) -> io::Result<Vec<Event>> {
+        // No append is in flight now: a sidecar that was refused only because it was read during
+        // one, or that another reader has rebuilt since, is served as it is.
+        if let Ok(Some(events)) = self.stream_cache.try_replay(continuity_id) {
+            return Ok(events);
+        }
+
         let events = self
             .event_log
             .replay_stream(StreamKind::Continuity, continuity_id)?;
@@ -3764,7 +3781,7 @@ impl ContinuityStore {
             return Ok(last_seq.saturating_add(1));
         }
 
-        let events = self.replay_events(continuity_id)?;
+        let events = self.replay_events_locked(continuity_id)?;
         let last = events.last().ok_or_else(|| {
             io::Error::new(io::ErrorKind::NotFound, "continuity stream does not exist")
         })?;
